@@ -74,6 +74,11 @@ pub trait Component {
     fn exec(&mut self, toks: &[&str], mon: &mut Mon) -> String;
     /// End-of-case monitors.
     fn end_case(&mut self, _mon: &mut Mon) {}
+    /// Optional: the COMPLETE enumeration of a finite sub-space named `which` (thorough tier,
+    /// model validation only - never stands in for a theorem).
+    fn exhaustive(&mut self, _which: &str) -> Option<Vec<Vec<String>>> {
+        None
+    }
     /// One-line description of the generator and the non-triviality rule.
     fn rule(&self) -> &'static str;
 }
@@ -120,9 +125,19 @@ pub fn run_main(comp_name: &str, mut comp: Box<dyn Component>) {
             };
             let mut master = Rng::new(seed ^ fnv(comp_name));
             let mut cases = Vec::with_capacity(n);
-            for k in 0..n {
-                let mut r = master.fork(k as u64);
-                cases.push(comp.gen_case(&mut r, tier, k));
+            if let Some(which) = parse_flag(&args, "--exhaustive") {
+                match comp.exhaustive(&which) {
+                    Some(c) => cases = c,
+                    None => {
+                        eprintln!("component {comp_name} has no exhaustive sub-space `{which}`");
+                        std::process::exit(2);
+                    }
+                }
+            } else {
+                for k in 0..n {
+                    let mut r = master.fork(k as u64);
+                    cases.push(comp.gen_case(&mut r, tier, k));
+                }
             }
             let mut f = std::io::BufWriter::new(
                 std::fs::File::create(format!("{out_dir}/{comp_name}.ops")).unwrap(),
